@@ -99,7 +99,30 @@ func (c10) Run(c *wk.Case) {
 		}, Args: 7})
 	}
 	st := funcGen.NewEmptyStack[value.Value]()
-	distinctTuples, partial, failing, gens := 0, 0, 0, 0
+	distinctTuples, partial, failing, gens, delayed := 0, 0, 0, 0, 0
+	type pend struct {
+		pe  *pooled
+		v   value.Value
+		err error
+		at  int
+	}
+	var pending []pend
+	forcePending := func(step int) bool {
+		if len(pending) == 0 {
+			return true
+		}
+		i := c.Rng.IntN(len(pending))
+		pd := pending[i]
+		pending = append(pending[:i], pending[i+1:]...)
+		got := bridge.Force(pd.v, pd.err)
+		delayed++
+		if v, why := bridge.CompareOutcome(pd.pe.wv, pd.pe.we, pd.pe.rae, got); v == bridge.Disagree {
+			c.Violation("evaluation-depends-on-history", fmt.Sprintf("%q: result of the evaluation at step %d with %v, consumed at step %d after other evaluations: %s", src, pd.at, describeArgs(pd.pe.refArgs), step, why),
+				map[string]any{"src": src, "args": describeArgs(pd.pe.refArgs), "evaluated_at_step": pd.at, "consumed_at_step": step, "why": why})
+			return false
+		}
+		return true
+	}
 	for step := 0; step < 40; step++ {
 		switch k := c.Rng.IntN(10); {
 		case k < 4:
@@ -117,6 +140,21 @@ func (c10) Run(c *wk.Case) {
 			if v == bridge.Disagree {
 				c.Violation("evaluation-depends-on-history", fmt.Sprintf("%q: evaluation %d of the history (step %d) with %v: %s", src, pe.used, step, describeArgs(pe.refArgs), why),
 					map[string]any{"src": src, "args": describeArgs(pe.refArgs), "step": step, "why": why, "nth_use": pe.used})
+				return
+			}
+		case k < 5 && step%2 == 0:
+			// evaluate now, consume the (possibly lazy) result later, after other evaluations
+			pe := pool[c.Rng.IntN(len(pool))]
+			if pe.we != nil && (pe.we.Budget || pe.we.Unspec) {
+				continue
+			}
+			func() {
+				defer func() { recover() }()
+				v, err := f.Eval(pe.realArgs...)
+				pending = append(pending, pend{pe, v, err, step})
+			}()
+		case k < 5:
+			if !forcePending(step) {
 				return
 			}
 		case k < 6:
@@ -172,6 +210,12 @@ func (c10) Run(c *wk.Case) {
 			}
 		}
 	}
+	for len(pending) > 0 {
+		if !forcePending(40) {
+			return
+		}
+	}
+	c.Count("delayed_consumptions", int64(delayed))
 	c.Count("partial_consumptions", int64(partial))
 	c.Count("failing_evaluations", int64(failing))
 	c.Count("interleaved_generates", int64(gens))
